@@ -12,6 +12,7 @@ structure Side where
   rbs    : List (Nat × RB.SB) := []   -- receive buffer of every stream object created on this side
   timers : List Nat := []             -- absolute fire times of armed `checkTimeout` timers
   notice : Nat := 0                   -- session-closing notices sent (ghost)
+  wfail  : Bool := false              -- every connection of this side fails on Write (the reset was seen by the writer first)
 
 def ev (sd : Side) (e : Ev) : Side × Res :=
   let (s, r) := SM.step sd.sm e
@@ -29,9 +30,13 @@ def sessClose (sd : Side) (active : Bool) : Side × Res :=
   else
     let (sd, _) := ev sd .sweep
     let sd := { sd with rbs := sd.rbs.map (fun p => (p.1, RB.close p.2)) }  -- every open stream's pipe is closed; closing an already closed pipe is idempotent
-    let sd := if active then { sd with notice := sd.notice + 1 } else sd
-    let (sd, _) := ev sd .closeAll
-    (sd, .ok)
+    if active ∧ sd.wfail then
+      -- `Close`: the notice cannot be sent; `send` calls passiveClose (a repeat, so no closeAll) and `Close` returns the error before its own closeAll
+      (sd, .refused)
+    else
+      let sd := if active then { sd with notice := sd.notice + 1 } else sd
+      let (sd, _) := ev sd .closeAll
+      (sd, .ok)
 
 /-- what happens after `streamCountDecr() == 0` -/
 def afterDecr (sd : Side) (now inact : Nat) : Side :=
@@ -43,13 +48,18 @@ def afterDecr (sd : Side) (now inact : Nat) : Side :=
 def entOf (sd : Side) (id : Nat) : Option Ent := (sd.sm.tbl.find? (·.1 == id)).map (·.2)
 
 /-- `closeStream(s, active)` -/
-def closeStream (sd : Side) (id : Nat) (now inact : Nat) : Side × Res :=
+def closeStream (sd : Side) (id : Nat) (active : Bool) (now inact : Nat) : Side × Res :=
   let (sd, r) := ev sd (.csCAS id)
   if r != .ok then (sd, .repeat_)
   else
     let sd := match getRB sd id with
       | some sb => setRB sd id (RB.close sb)
       | none => sd
+    if active ∧ sd.wfail then
+      -- the closing frame cannot be sent: `send` tears the session down (passiveClose) and closeStream returns the error
+      -- before the tombstone and the count--
+      ((sessClose sd false).1, .refused)
+    else
     let (sd, _) := ev sd (.csTomb id)
     let (sd, _) := ev sd .csDecr
     (afterDecr sd now inact, .ok)
@@ -90,7 +100,7 @@ def recv (sd : Side) (sid seq closing : Nat) (pl : Bytes) (now inact : Nat) : Si
         let sd := setRB sd sid sb'
         match o with
         | .close =>
-          let (sd, _) := closeStream sd sid now inact
+          let (sd, _) := closeStream sd sid false now inact
           (sd, if isNew then "new+closed" else "closed")
         | .errOld => (sd, "errOld")
         | .ok => (sd, if isNew then "new" else "ok")
